@@ -59,6 +59,32 @@ fn obtain_heartbeat_command() -> server::channels::commands::verify_heartbeats::
     cmd
 }
 
+fn settings_digest(comp: CompressionAlgorithm, exp: IggyExpiry, maxs: MaxTopicSize, repl: u8) -> String {
+    format!("{comp}|{exp}|{maxs}|{repl}")
+}
+
+/// Topic settings drawn from the scenario's seed, with the values the get calls must show afterwards: the server default is
+/// resolved through the server's configuration, an absent replication factor is 1.
+fn topic_settings(rng: &mut Rng, config: &server::configs::system::SystemConfig) -> (CompressionAlgorithm, Option<u8>, IggyExpiry, MaxTopicSize, String) {
+    use std::str::FromStr;
+    let comp = if rng.chance(1, 3) { CompressionAlgorithm::Gzip } else { CompressionAlgorithm::None };
+    let repl = match rng.below(3) { 0 => None, 1 => Some(1u8), _ => Some(3u8) };
+    let exp = match rng.below(3) {
+        0 => IggyExpiry::NeverExpire,
+        1 => IggyExpiry::ServerDefault,
+        _ => IggyExpiry::ExpireDuration(iggy::utils::duration::IggyDuration::from_str("1000h").unwrap()),
+    };
+    let maxs = match rng.below(3) {
+        0 => MaxTopicSize::ServerDefault,
+        1 => MaxTopicSize::Unlimited,
+        _ => MaxTopicSize::Custom(iggy::utils::byte_size::IggyByteSize::from_str("3 GB").unwrap()),
+    };
+    let (def_exp, def_max) = (config.segment.message_expiry, config.topic.max_size);
+    let shown_exp = if matches!(exp, IggyExpiry::ServerDefault) { def_exp } else { exp };
+    let shown_max = if matches!(maxs, MaxTopicSize::ServerDefault) { def_max } else { maxs };
+    (comp, repl, exp, maxs, settings_digest(comp, shown_exp, shown_max, repl.unwrap_or(1)))
+}
+
 fn ident(r: &Value) -> Option<Identifier> {
     match r["by"].as_str() {
         Some("id") => Identifier::numeric(r["v"].as_u64().unwrap_or(0) as u32).ok(),
@@ -284,6 +310,8 @@ impl CatLens {
                 }
             };
         }
+        let mut settings_sent: Option<String> = None;
+        let sysconf = srv::build_config(&run.dir, &run.scn.cfg, srv::ENC_KEY_A);
         let (res, rid): (String, u32) = {
             let inc = run.inc.as_ref().unwrap();
             let a = run.admin.as_ref().unwrap();
@@ -297,30 +325,16 @@ impl CatLens {
                 "purge_stream" => (res_of(&inc.rt.block_on(a.purge_stream(&need!(sref)))), 0),
                 "create_topic" => {
                     let parts = step["parts"].as_u64().unwrap_or(1) as u32;
-                    let r = inc.rt.block_on(a.create_topic(
-                        &need!(sref),
-                        &name,
-                        parts,
-                        CompressionAlgorithm::None,
-                        None,
-                        idopt,
-                        IggyExpiry::NeverExpire,
-                        MaxTopicSize::ServerDefault,
-                    ));
+                    let (comp, repl, exp, maxs, digest) = topic_settings(&mut run.rng, &sysconf);
+                    settings_sent = Some(digest);
+                    let r = inc.rt.block_on(a.create_topic(&need!(sref), &name, parts, comp, repl, idopt, exp, maxs));
                     (res_of(&r), r.map(|d| d.id).unwrap_or(0))
                 }
-                "update_topic" => (
-                    res_of(&inc.rt.block_on(a.update_topic(
-                        &need!(sref),
-                        &need!(tref),
-                        &name,
-                        CompressionAlgorithm::None,
-                        None,
-                        IggyExpiry::NeverExpire,
-                        MaxTopicSize::ServerDefault,
-                    ))),
-                    0,
-                ),
+                "update_topic" => {
+                    let (comp, repl, exp, maxs, digest) = topic_settings(&mut run.rng, &sysconf);
+                    settings_sent = Some(digest);
+                    (res_of(&inc.rt.block_on(a.update_topic(&need!(sref), &need!(tref), &name, comp, repl, exp, maxs))), 0)
+                }
                 "delete_topic" => (res_of(&inc.rt.block_on(a.delete_topic(&need!(sref), &need!(tref)))), 0),
                 "purge_topic" => (res_of(&inc.rt.block_on(a.purge_topic(&need!(sref), &need!(tref)))), 0),
                 "create_partitions" | "delete_partitions" => {
@@ -475,6 +489,9 @@ impl CatLens {
         let o = ev.as_object_mut().unwrap();
         o.insert("res".into(), json!(res));
         o.insert("rid".into(), json!(rid));
+        if let Some(d) = settings_sent {
+            o.insert("set".into(), json!(d));
+        }
         Ok(ev)
     }
 
@@ -485,6 +502,7 @@ impl CatLens {
         let mut incons: Vec<String> = vec![];
         let mut s_out = vec![];
         let mut t_out = vec![];
+        let mut tset_out = vec![];
         let mut g_out = vec![];
         let mut cnt_out = vec![];
         let obsc = Consumer::new(Identifier::numeric(9999).unwrap());
@@ -539,6 +557,12 @@ impl CatLens {
                     incons.push(format!("topic {}/{} list entry and details differ", s.id, t.id));
                 }
                 t_out.push(json!([s.id, t.id, t.name, t.partitions_count]));
+                tset_out.push(json!([s.id, t.id, settings_digest(td.compression_algorithm, td.message_expiry, td.max_topic_size, td.replication_factor)]));
+                if t.compression_algorithm != td.compression_algorithm || t.message_expiry != td.message_expiry || t.max_topic_size != td.max_topic_size
+                    || t.replication_factor != td.replication_factor
+                {
+                    incons.push(format!("topic {}/{} list entry and details show different settings", s.id, t.id));
+                }
                 let tid = Identifier::numeric(t.id).unwrap();
                 let mut topic_msgs = 0u64;
                 for p in &td.partitions {
@@ -645,7 +669,7 @@ impl CatLens {
             needles.dedup();
             journal_hits = crate::util::scan_files_for(&format!("{}/state", run.dir), &needles);
         }
-        Ok(json!({"journal_hits": journal_hits, "S": s_out, "T": t_out, "G": g_out, "Cnt": cnt_out, "U": u_out, "Mem": mem_out,
+        Ok(json!({"journal_hits": journal_hits, "S": s_out, "T": t_out, "Tset": tset_out, "G": g_out, "Cnt": cnt_out, "U": u_out, "Mem": mem_out,
                   "dS": d_s, "dT": d_t, "dP": d_p, "incons": incons}))
     }
 }
